@@ -34,6 +34,7 @@ class Variant:
     edits: Optional[List[Tuple[str, str, str]]] = None  # additional (file, old, new)
     func: Optional[str] = None  # name of a generic transformation ("unparse-all", ...)
     count: int = 1  # how many occurrences of `old` are expected (all replaced)
+    gone: Optional[str] = None  # silent variants that repair a known finding: "<rule> <instance substring>" that must no longer be violated
 
 
 def _copy_tree(repo: str, dst: str):
@@ -150,6 +151,11 @@ def _run_variant(args) -> dict:
             return {"name": v.name, "verdict": "analysis-error", "why": rep.deferred_errors[0][:300], "ok": v.expect == "fire" and v.rule is None}
         if v.expect == "silent":
             ok = not new
+            if ok and v.gone:
+                g_rule, _, g_inst = v.gone.partition(" ")
+                still = [x for x in viol if x[0] == g_rule and g_inst in x[1]]
+                if still:
+                    return {"name": v.name, "verdict": "repair-not-recognised", "ok": False, "new": still[:2], "s": round(time.time() - t0, 2)}
             return {"name": v.name, "verdict": "silent" if ok else "false-alarm", "ok": ok, "new": new[:3], "s": round(time.time() - t0, 2)}
         hit = [x for x in new if (v.rule is None or x[0] == v.rule) and (v.instance is None or v.instance in x[1])]
         return {"name": v.name, "verdict": "fired" if hit else ("fired-elsewhere" if new else "missed"), "ok": bool(hit),
